@@ -107,6 +107,14 @@ type strer struct{ s string }
 
 func (s strer) String() string { return s.s }
 
+// a stringer whose value is not its type's zero value even when its text is empty
+type strer2 struct {
+	s string
+	n int
+}
+
+func (s strer2) String() string { return s.s }
+
 type privStruct struct {
 	a int
 	B string
@@ -212,6 +220,9 @@ func (w *World) val(v Val) any {
 		}
 		return userOp{v.S, ctx}
 	case "strer":
+		if v.D == 1 {
+			return strer2{v.S, 1}
+		}
 		return strer{v.S}
 	case "aux":
 		return w.aux(int(v.I))
@@ -376,6 +387,8 @@ func (w *World) describeD(x any, depth int) string {
 		return "uop(" + v.text + "," + v.ctx + ")"
 	case strer:
 		return "strer(" + v.s + ")"
+	case strer2:
+		return "strer2(" + v.s + ")"
 	case stackage.LogLevel:
 		return "lvl" + strconv.Itoa(int(v))
 	case stackage.Auxiliary:
